@@ -240,3 +240,17 @@ def spec_meta(events):
         if c:
             return c
     return None
+
+
+# ----------------------------------------------------------------------------------------------
+def spec_try(b):
+    """tryEncodings without chardet, from its docstring: the first of ascii, iso-8859-1 (windows-1252 if that works too and
+    shows a Euro sign), utf-8 that decodes the bytes"""
+    if all(x < 128 for x in b):
+        return 'ascii'
+    try:
+        if '€' in codecs.decode(b, 'cp1252'):
+            return 'windows-1252'
+    except UnicodeDecodeError:
+        pass
+    return 'iso-8859-1'
